@@ -167,7 +167,9 @@ class MessagePackDocument(HierDictDocument):
             try:
                 ctx.in_document = msgpack.unpackb(b''.join(ctx.in_string))
             except ValueError as e:
-                raise MessagePackDecodeError(' '.join(e.args))
+                # not every ValueError carries strings (ExtraData has the
+                # unpacked object, UnicodeDecodeError has bytes and offsets)
+                raise MessagePackDecodeError('%s' % (e,))
 
     def gen_method_request_string(self, ctx):
         """Uses information in context object to return a method_request_string.
@@ -229,7 +231,7 @@ class MessagePackRpc(MessagePackDocument):
 
 
         except ValueError as e:
-            raise MessagePackDecodeError(''.join(e.args))
+            raise MessagePackDecodeError('%s' % (e,))
 
         try:
             len(ctx.in_document)
